@@ -47,6 +47,20 @@ for i, mn in enumerate(["add", "adc", "sub", "sbb", "ana", "xra", "ora", "cmp"])
     OBLIGATIONS.append(g85("alu_" + mn, "G_ALU", ["DecodeALU", "DecodeADD", "DecodeADC", "DecodeSUB", "DecodeReg8"], mn.upper() + " x 8 registers", form=i))
 for i, rn in enumerate("bcdehlma"):
     OBLIGATIONS.append(g85("mov_" + rn, "G_MOV", ["DecodeMOV", "DecodeReg8"], "MOV %s,r for 8 source registers" % rn.upper(), form=i))
-META = dict(outside=["6502/65C02, Z80, MSP430, AVR (no harness)", "8080/8085: Z80-syntax mode, undocumented 8085 instructions", "PIC16: default destination, OPTION/TRIS/BANKSEL/SFR/ZERO/DATA pseudo forms", "mnemonic hash dispatch (asmitree.c)", "operand text parsing beyond the concrete forms",
+BAVR = dict(src="cavr.c", include=["codeavr.c"], units=["asmdef.c", "bpemu.c"], stubs=["diag.c", "fmt_off.c"], unwind=24, unwind_fn={"harness": 40, "LookupInstTable": 260}, timeout=1500,
+            assumes=B4004["assumes"] + ["megaAVR core (every instruction available), word-addressed code segment (CODESEGSIZE=1), 64K words of flash",
+                                       "register operands spelled with two digits (R00..R39); register aliases (REG) not defined", "ConstLongInt cut to a decimal-number contract"])
+def gavr(name, d, fn, bounds):
+    o = dict(BAVR); o.update(name="avr_" + name, defs=[d, "STRINGSIZE=16"], functions=["codeavr.c:" + f for f in fn] + ["codeavr.c:MakeCode_AVR", "codeavr.c:InitFields", "codeavr.c:SwitchTo_AVR", "codeavr.c:DecodeReg", "codeavr.c:DecodeRegCore", "codeavr.c:DecodeArgReg", "codeavr.c:AppendCode"], bounds=bounds); return o
+OBLIGATIONS += [
+    gavr("fixed", "G_FIXED", ["DecodeFixed"], "27 operand-less instructions"),
+    gavr("reg1", "G_REG1", ["DecodeReg1"], "10 one-register instructions x register number 0..39"),
+    gavr("reg2", "G_REG2", ["DecodeReg2", "DecodeReg3"], "12 two-register instructions and 4 one-register aliases x register numbers 0..39"),
+    gavr("imm", "G_IMM", ["DecodeImm", "DecodeCBR", "DecodeSER"], "7 register-immediate instructions, CBR, SER x register number 0..39, any 64-bit constant"),
+    gavr("rel", "G_REL", ["DecodeRel", "DecodeRJMPCALL", "GetWordCodeAddress", "GetNextCodeAddress"], "18 conditional branches, RJMP, RCALL; any 64-bit target, any PC below 64K words"),
+    gavr("bit", "G_BIT", ["DecodeBit", "DecodeBCLRSET"], "BLD/BST/SBRC/SBRS x register 0..39 x any bit value; BSET/BCLR any value"),
+    gavr("io", "G_IO", ["DecodeINOUT", "DecodeADIW", "DecodeMOVW", "DecodeMULS"], "IN, OUT, ADIW, SBIW, MOVW, MULS with register numbers 0..39 and any 64-bit constant"),
+]
+META = dict(outside=["6502/65C02, Z80, MSP430 (no harness)", "AVR: LD/ST/LDD/STD/LDS/STS/LPM/ELPM/JMP/CALL/SBI/CBI/SBIC/SBIS/FMUL*, byte-addressed code segment, cores below megaAVR, register aliases", "8080/8085: Z80-syntax mode, undocumented 8085 instructions", "PIC16: default destination, OPTION/TRIS/BANKSEL/SFR/ZERO/DATA pseudo forms", "mnemonic hash dispatch (asmitree.c)", "operand text parsing beyond the concrete forms",
                      "JCN with a numeric condition, DATA/DS/REG pseudo instructions"],
             assumptions=["malloc never fails"])
